@@ -153,13 +153,60 @@ func (s *shimSim) absorb(msgs []map[string]interface{}) {
 	}
 }
 
+// scheduleOp returns a scheduling-cycle operation; now and then it carries an "interrupt": an RM removal request that is
+// handled between the scheduling decision and its confirmation (PartitionContext.allocate), as the RM event goroutine
+// could do it. The shim's own bookkeeping is updated for the removal.
+// interruptP: probability that a generated scheduling cycle is interrupted. 0 in the generated streams: on the tree as
+// received an RM removal inside the decision/confirmation window orphans the allocation the cycle just made (known
+// finding C14.orphan-allocation-app-removed-while-allocating), which would drown every other clause of the history;
+// the window is exercised by hand-written corpus scenarios instead (corpus/C09, corpus/C04).
+const interruptP = 0.0
+
+func (s *shimSim) scheduleOp(p float64) map[string]interface{} {
+	op := map[string]interface{}{"op": "schedule"}
+	if !s.c.chance(p) {
+		return op
+	}
+	pending := []string{}
+	for k := range s.asks {
+		if s.bound[k] == "" {
+			pending = append(pending, k)
+		}
+	}
+	sort.Strings(pending)
+	apps := sortedKeys(s.apps)
+	nodes := sortedKeys(s.nodes)
+	switch q := s.c.pick(10); {
+	case q < 6 && len(pending) > 0:
+		k := s.pickFrom(pending)
+		op["interrupt"] = map[string]interface{}{"op": "release", "app": s.asks[k].app, "key": k, "type": "STOPPED_BY_RM"}
+		delete(s.asks, k)
+		delete(s.bound, k)
+	case q < 8 && len(apps) > 0:
+		id := s.pickFrom(apps)
+		op["interrupt"] = map[string]interface{}{"op": "app-remove", "id": id}
+		delete(s.apps, id)
+		for k, a := range s.asks {
+			if a.app == id {
+				delete(s.asks, k)
+				delete(s.bound, k)
+			}
+		}
+	case len(nodes) > 1:
+		id := s.pickFrom(nodes)
+		op["interrupt"] = map[string]interface{}{"op": "node", "id": id, "action": "decommission"}
+		delete(s.nodes, id)
+	}
+	return op
+}
+
 func runCore(c *Ctx, id string) {
 	d := &coreDrv{c: c, id: id}
 	if replayFile != "" {
 		for _, in := range readReplay(replayFile) {
 			op := map[string]interface{}{}
 			for k, v := range in {
-				if k != "st" && k != "msgs" && k != "c" && k != "out" && k != "panic" && k != "error" && k != "hang" {
+				if k != "st" && k != "msgs" && k != "c" && k != "out" && k != "panic" && k != "error" && k != "hang" && k != "interrupted" {
 					op[k] = v
 				}
 			}
@@ -307,7 +354,7 @@ func coreHistory(c *Ctx, d *coreDrv) {
 			emitAndAbsorb(op)
 			s.asks[key] = ask
 		case p < 72:
-			emitAndAbsorb(map[string]interface{}{"op": "schedule"})
+			emitAndAbsorb(s.scheduleOp(interruptP))
 		case p < 80:
 			// release: an allocation the shim knows as bound, an outstanding ask, or garbage
 			keys := []string{}
